@@ -244,4 +244,5 @@ def cases(tier, seed=0):
     for link, signs in (("exp", None), ("cosh", None), ("step", [1]), ("relu", [1])):
         for (Dx, Dy, Da, Dk) in ((1, 1, 1, 1), (2, 2, 2, 1), (1, 1, 2, 1)):
             out.append(coherence_case(link, Dx, Dy, Da, Dk, signs=signs, prop=PROP))
+        out.append(coherence_case(link, 1, 2, 2, 2, signs=([1, 1] if signs else None), prop=PROP))      # two noise units
     return out
